@@ -106,7 +106,7 @@ def _txn_insertion(ctx, cfg, prog, mod):
         b = prog.bodies[q]
         roots = []
         for _ in range(20):
-            if ('fail', 1) not in eng.summary[(q, i)]:
+            if not txn.dirty_fail(eng.summary[(q, i)]):
                 break
             r = eng.own_root(q, i, oset)
             if r is None or r['exit_block'] is None or r['exit_block'] in eng.cut_blocks.get(q, ()):
